@@ -229,7 +229,18 @@ func ruleCodabarAssembly(c *Ctx) {
 		eq, _ := CondEquivalent(n.ReachCond(F, body, gap.Block()), cTrue)
 		c.Check(R, "codabar.EncodeWithColor/gap-iff", gap.Pos(), okHdr && eq, "the carried gap (empty for the first character, one space afterwards) is appended for every character", fmt.Sprintf("state of the character loop: %v; appended when %s", okHdr, n.ReachCond(F, body, gap.Block())))
 	} else {
-		c.expectCondC(R, "codabar.EncodeWithColor/gap-iff", gap.Pos(), cAnd(dom, n.ReachCond(F, body, gap.Block())), cAnd(dom, MustRefCond("i != 0")))
+		want := MustRefCond("i != 0")
+		// (or decided by a flag that is raised after the first character)
+		if flag, neg := notFirstFlag(hdr); flag != nil {
+			n.Bind[flag] = "notfirst"
+			if condMentions(n.ReachCond(F, body, gap.Block()), "notfirst") {
+				want = &Cond{Kind: CBool, Name: "notfirst"}
+				if neg {
+					want = cNot(want)
+				}
+			}
+		}
+		c.expectCondC(R, "codabar.EncodeWithColor/gap-iff", gap.Pos(), cAnd(dom, n.ReachCond(F, body, gap.Block())), cAnd(dom, want))
 	}
 	c.Check(R, "codabar.EncodeWithColor/gap-before-pattern", gap.Pos(), !dominatesInstr(pat, gap) && reachableFrom(gap.Block())[pat.Block()], "the gap precedes the character's pattern", "ok")
 }
